@@ -75,6 +75,17 @@ func genC10(prop string, r *sim.Rng, i int) *c10Case {
 		"ssh: Could not resolve hostname r1: Name or service not known", "Unable to negotiate with 1.2.3.4 port 22: no matching key exchange method found. Their offer: diffie-hellman-group1-sha1",
 		"kex_exchange_identification: Connection timed out", "/etc/ssh/ssh_config: line 3: Bad configuration option: foo"}
 	shell := sim.LoginTurn{Kind: "shell", Banner: r0(banners, r), Text: "router#"}
+	if r.Chance(1, 6) {
+		// a message of the day longer than the prompt search depth: everything read during login must
+		// still reach the first operation
+		var motd []string
+		nl := 21 + r.Intn(15)
+		c.Segs, c.DefSeg = nil, []int{0, 97, 400}[r.Intn(3)] // coarse reads: the dialogue is long
+		for k := 0; k < nl; k++ {
+			motd = append(motd, fmt.Sprintf("motd %02d: maintenance window sunday 02:00-04:00 utc", k))
+		}
+		shell.Banner = motd
+	}
 	if i%2 == 0 {
 		c.Kind = "ssh"
 		nwrong := r.Intn(4) // 0..3 rejections
@@ -179,6 +190,7 @@ func (s *logSink) containsAny(secrets ...string) string {
 }
 
 func runC10Case(id string, c *c10Case) {
+	defer recoverCase(id, c)
 	cs := &Case{ID: id, Kind: c.Prop + "/" + c.Kind, HypOK: true, Replay: c}
 	sink := &logSink{}
 	li, _ := logging.NewInstance(logging.WithLevel(c.LogLevel), logging.WithLogger(sink.log))
@@ -305,6 +317,24 @@ func runC10Case(id string, c *c10Case) {
 		expect = "timeout"
 	case reachedShell:
 		expect = "none"
+	}
+	if openErr == nil {
+		// "the bytes read during login remain available to the first operation": everything the device
+		// printed after the last credential was typed (banner, message of the day, prompt) -- or all of
+		// its output when nothing was typed -- is what the first read returns (it may be preceded by
+		// more of the login dialogue)
+		_, ems := tr.WriteEmissions()
+		tail := tr.StartBytes()
+		if len(ems) > 0 {
+			tail = ems[len(ems)-1]
+		}
+		tail = bytes.ReplaceAll(tail, []byte("\r"), nil)
+		all := bytes.ReplaceAll(tr.DeliveredBytes(), []byte("\r"), nil)
+		if !bytes.HasSuffix(firstN, tail) || !bytes.HasSuffix(all, firstN) {
+			cs.Oracle = fmt.Sprintf("after the last credential the device printed %d bytes (%q...); the first read after login returned %d bytes (%q...)",
+				len(tail), truncate(string(tail), 40), len(firstN), truncate(string(firstN), 40))
+			cs.Sig = "C10:login-bytes-lost"
+		}
 	}
 	if got := errClass(openErr); got != expect {
 		cs.Oracle = fmt.Sprintf("open returned %s, want %s for the dialogue %v", got, expect, kinds(c.Turns))
